@@ -408,6 +408,37 @@ fn c15_flush_fault_at_shutdown() {
 
 /// ErrorCounter saturates instead of wrapping (any start value through repeated drops is out of reach; the
 /// counter is driven to its last two values through the real `incr_saturating` on a full queue).
+/// lossy mode, the worker (receiver) is gone: the line cannot be queued, so it must be counted as dropped
+/// (written + dropped == offered also holds for lines offered after the worker went away); non-lossy reports an error
+#[kani::proof]
+#[kani::unwind(5)]
+#[kani::stub(std::rt::thread_cleanup, noop)]
+#[kani::stub(core::fmt::write, fmt_write_stub)]
+fn c15_offered_after_worker_gone() {
+    let lossy: bool = kani::any();
+    let cap: usize = kani::any();
+    kani::assume(cap == 1 || cap == 2);
+    let (mut nb, w, g) = v::non_blocking_unspawned(Sink, cap, lossy);
+    let c = nb.error_counter();
+    // the worker and the guard go away without having received anything: the channel is disconnected and empty
+    drop(w);
+    drop(g);
+    let x: u8 = kani::any();
+    let r = nb.write(&[x]);
+    if lossy {
+        assert!(matches!(r, Ok(1)));
+        assert!(c.dropped_lines() == 1);
+        let r2 = nb.write(&[x, x]);
+        assert!(matches!(r2, Ok(2)));
+        assert!(c.dropped_lines() == 2);
+    } else {
+        assert!(r.is_err());
+        assert!(c.dropped_lines() == 0);
+    }
+    kani::cover!(lossy && cap == 1);
+    kani::cover!(!lossy);
+}
+
 #[kani::proof]
 #[kani::unwind(5)]
 #[kani::stub(std::rt::thread_cleanup, noop)]
